@@ -42,6 +42,22 @@ def propagate_viability_from_node(node: AttackGraphNode) -> None:
         if child.is_viable != original_value:
             propagate_viability_from_node(child)
 
+def _has_ttc_distribution(node: AttackGraphNode) -> bool:
+    """
+    Return True if the node has a TTC probability distribution associated
+    with it (anything other than Enabled or Disabled).
+    """
+    return bool(node.ttc) and 'name' in node.ttc and \
+        node.ttc['name'] not in ['Enabled', 'Disabled']
+
+def _counts_as_necessary(node: AttackGraphNode) -> bool:
+    """
+    Return True if the node should be seen as necessary by its children.
+    Nodes that have a TTC probability distribution do not pass on their
+    unnecessary status, see propagate_necessity_from_node.
+    """
+    return node.is_necessary or _has_ttc_distribution(node)
+
 def propagate_necessity_from_node(node: AttackGraphNode) -> None:
     """
     Arguments:
@@ -69,7 +85,7 @@ def propagate_necessity_from_node(node: AttackGraphNode) -> None:
             # Note: the child can be one of its own parents, so its status
             # must not be reset before all of the parents were consulted.
             child.is_necessary = any(
-                parent.is_necessary for parent in child.parents)
+                _counts_as_necessary(parent) for parent in child.parents)
 
         # TODO: Update TTC for child attack step before if it is not necessary
         # before propagating it further.
